@@ -3,7 +3,9 @@ package checks
 import (
 	"bytes"
 	"fmt"
+	"sync"
 	"testing"
+	"time"
 
 	of "github.com/contiv/libOpenflow/openflow13"
 	"github.com/contiv/libOpenflow/util"
@@ -152,6 +154,21 @@ func TestC13(t *testing.T) {
 			if i == 0 && rapid.Bool().Draw(rt, "encode_first") {
 				op = 1 // in half the cases the very first operation is an encode without a prior size query
 			}
+			if op == 2 && gv.family == "message" && rapid.Bool().Draw(rt, "via_stream") {
+				// the stream's writer goroutine is one more "container": it encodes whatever it is handed
+				w, ok := c13ViaStream(v)
+				hist = append(hist, fmt.Sprintf("stream.Outbound(%d bytes written)", len(w)))
+				viaContainer = true
+				if !ok {
+					c.Report(rt, "C13|"+fmt.Sprintf("%T", v)+"|stream-write-missing", fmt.Sprintf("%s: nothing written within 30 s; history %v", gv.kind, hist), rep())
+					return
+				}
+				if firstEnc != nil && !bytes.Equal(w, firstEnc) {
+					c.Report(rt, "C13|"+fmt.Sprintf("%T", v)+"|encode-unrepeatable", fmt.Sprintf("%s: the stream wrote %s, the first encoding was %s; history %v", gv.kind, hx(w), hx(firstEnc), hist), rep())
+					return
+				}
+				continue
+			}
 			switch op {
 			case 0:
 				l, fr := safeLen(v)
@@ -255,4 +272,36 @@ func TestC13(t *testing.T) {
 			c.Sample(map[string]any{"kind": gv.kind, "history": hist, "bytes": len(firstEnc)})
 		}
 	})
+}
+
+// one outbound stream per test process (a MessageStream owns ~28 goroutines)
+var (
+	c13Once   sync.Once
+	c13Conn   *scriptConn
+	c13Stream *util.MessageStream
+	c13Mu     sync.Mutex
+)
+
+// c13ViaStream submits v to the stream and returns the bytes of the write it caused.
+func c13ViaStream(v util.Message) ([]byte, bool) {
+	c13Once.Do(func() {
+		c13Conn = newScriptConn(nil, nil)
+		c13Stream = util.NewMessageStream(c13Conn, copyingParser{})
+	})
+	c13Mu.Lock()
+	defer c13Mu.Unlock()
+	before := len(c13Conn.Writes())
+	c13Stream.Outbound <- v
+	deadline := time.Now().Add(lossWait)
+	for time.Now().Before(deadline) {
+		if w := c13Conn.Writes(); len(w) > before {
+			out := w[len(w)-1]
+			c13Conn.mu.Lock()
+			c13Conn.writes = nil // keep the log short
+			c13Conn.mu.Unlock()
+			return out, true
+		}
+		time.Sleep(20 * time.Microsecond)
+	}
+	return nil, false
 }
